@@ -58,8 +58,16 @@ impl TypeScorerBoundaryTag {
             let weight = PositionalWeightWithTag::with_boundary(-i16::from(window_size), d.weights);
             merger.add(d.ngram, weight);
         }
+        // Tag n-grams may end up to `rel_position` characters after the token; the table must cover
+        // the largest relative position in the model, which can exceed the window size.
+        let n_rel_positions = tag_ngram_model
+            .iter()
+            .flat_map(|tag_model| &tag_model.0)
+            .flat_map(|d| &d.weights)
+            .map(|w| usize::from(w.rel_position) + 1)
+            .fold(usize::from(window_size) + 1, usize::max);
         let mut tag_weight = vec![
-            vec![SerializableHashMap::default(); usize::from(window_size) + 1];
+            vec![SerializableHashMap::default(); n_rel_positions];
             tag_ngram_model.len()
         ];
         for (i, tag_model) in tag_ngram_model.into_iter().enumerate() {
